@@ -16,7 +16,7 @@ open Py
 /-- the environment of the correspondence run (any time tag accepted, PING→PONG stub) -/
 def stubEnv : Env := { timeOk := fun _ => true, react := pingPong }
 
-theorem stubEnv_noEscape : NoEscape stubEnv := ⟨fun _ _ => rfl, fun _ => rfl⟩
+theorem stubEnv_noEscape : NoEscape stubEnv := ⟨fun _ _ => rfl, fun _ => rfl, rfl⟩
 
 /-! ## write side -/
 
